@@ -10,11 +10,25 @@ from harness.impl.reader import run_reader
 
 IMPORTS = "From Ford Require Import Base.Str Lex.Quote Lex.Reader Lex.ReaderSpec Corr.C02."
 THEOREMS = ["C02_unterminated_tokens", "C02_unterminated_open_literal", "C02_comment_found",
-            "C02_no_comment_in_literal", "C02_semicolon_split", "C02_file_statements", "C02_layout_invariance", "C02_joined_all_amp",
-            "C02_partial", "C02_partial_refuted_comment_after_literal", "C02_partial_refuted_comment_in_literal"]
-REGIONS = {"comment_after_cont_lit": 1, "comment_in_cont_lit": 2}
-FINDING_KEYS = {1: "comment-after-continued-literal", 2: "comment-line-inside-continued-literal",
-                3: "comment-after-continued-literal"}
+            "C02_no_comment_in_literal", "C02_comment_found_after_open_literal", "C02_comment_line_in_open_literal",
+            "C02_semicolon_split", "C02_file_statements", "C02_layout_invariance", "C02_joined_all_amp",
+            "C02_repaired_comment_after_literal", "C02_repaired_comment_in_literal"]
+
+ABCDEF = [("c", "x"), ("s", 1), ("c", "="), ("s", 1), ("l", "'", "abcdef")]
+# fixed regression inputs: layouts on which the reader used to fail (commentary after / between the lines of a
+# continued literal); judged against the Spec like every other layout: (lines, pieces per logical line)
+REGRESSIONS = [
+    (["x = 'abc&", "  &def' ! comment"], [ABCDEF]),
+    (["x = 'abc&", "! note", "  &def'"], [ABCDEF]),
+    (["x = 'abc&", "   ! it's a note", "", "  &def'   ! 'c' \"", "y = 2"],
+     [ABCDEF, [("c", "y"), ("s", 1), ("c", "="), ("s", 1), ("c", "2")]]),
+    (["x = 'abc&", "  !! doc between", "  &def' !! doc after"], [ABCDEF]),
+    (['s = "a\'b &', "  ! '", '  &c" // \'d&', '!"', "  &e' ! \" '", "t = 1 ! c"],
+     [[("c", "s"), ("s", 1), ("c", "="), ("s", 1), ("l", '"', "a'b c"), ("s", 1), ("c", "//"), ("s", 1),
+       ("l", "'", "de")],
+      [("c", "t"), ("s", 1), ("c", "="), ("s", 1), ("c", "1")]]),
+    (["x = 'abc&", "  &de&", " ! 1", "  &f'! c"], [ABCDEF]),
+]
 
 
 def coq_char(c):
@@ -40,7 +54,7 @@ def coq_impl(res):
 
 def gen_layout_case(rng, knobs=None):
     nlog = rng.choice([1, 1, 2, 3, 5])
-    lines, pss, regions, ncuts = [], [], set(), 0
+    lines, pss, shapes, ncuts = [], [], set(), 0
     for _ in range(nlog):
         while rng.random() < 0.2:
             lines.append(rng.choice(["", "   ", "! c", "  !" + rng.choice(L.COMMENTS)]))
@@ -53,9 +67,9 @@ def gen_layout_case(rng, knobs=None):
             continue
         lines += lay["lines"]
         pss.append(pieces)
-        regions |= lay["regions"]
+        shapes |= lay["shapes"]
         ncuts += lay["cuts"]
-    return lines, pss, regions, ncuts
+    return lines, pss, shapes, ncuts
 
 
 def exhaustive_small(rng, limit):
@@ -72,12 +86,12 @@ def exhaustive_small(rng, limit):
         for cuts in [[]] + [[p] for p in range(1, len(cs))] + [[p, p + 2] for p in range(1, len(cs) - 2, 3)]:
             lay = L.gen_layout(rng, pieces, {"force_cuts": cuts, "comments": False, "between": False,
                                              "max_indent": 2})
-            yield lay["lines"], [pieces], lay["regions"], lay["cuts"]
+            yield lay["lines"], [pieces], lay["shapes"], lay["cuts"]
 
 
 def malformed(rng):
     pool = ["x = 'abc", "&", "& y", "x = 1 &", "  & ! c", "'", "a = \"b ! c", "!! doc", "!> pre", "x = 1 !> bad",
-            "!* alt", "! plain", "!| altpre", "", "#if X", "; ;", "a;;b", "x = 'it''s' // &", "'more' ! c",
+            "!* alt", "! plain", "!| altpre", "", "#if X", "; ;", "a;;b", "x = 'it''s' // &", "'more' ! c", "&def' ! c", "  &de\" !! doc", "&d'//\"e&", "!> 'pre", "  ! it's",
             "& 'z'", "call f(a, & ! c", "b)", "x = ''", "y = \"\"\"\"", "    !! doc2", "z = 3 !! inline doc"]
     return [rng.choice(pool) for _ in range(rng.choice([1, 2, 3, 4, 6]))]
 
@@ -97,37 +111,45 @@ def run(chk):
             (['msg = "well, &', "   &it isn't &", '   &over ! yes" ; print *, msg'],
              [[("c", "msg"), ("s", 1), ("c", "="), ("s", 1), ("l", '"', "well, it isn't over ! yes"), ("s", 1),
                (";",), ("s", 1), ("c", "print"), ("s", 1), ("c", "*,"), ("s", 1), ("c", "msg")]], set(), 2),
-        ]
+        ] + [(lines, pss, {"regression"}, len(lines) - 1) for lines, pss in REGRESSIONS]
         gens = itertools.chain(corpus, exhaustive_small(rng, 60 if quick else 2000),
                                (gen_layout_case(rng) for _ in range(1500 if quick else 40000)))
-        for lines, pss, regions, ncuts in gens:
+        shape_cases = {"comment_after_cont_lit": 0, "comment_in_cont_lit": 0, "regression": 0}
+        for lines, pss, shapes, ncuts in gens:
             if not all(core.is_ascii(l) for l in lines):
                 continue
             res = run_reader(lines, workdir=work)
-            region = sum(REGIONS[r] for r in regions)
-            cases.append((lines, pss, region, res))
+            cases.append((lines, pss, res))
+            for sh in shapes:
+                shape_cases[sh] += 1
             chk.count(("lay", tuple(lines)), nontrivial=ncuts > 0 or len(lines) > 1,
                       sample={"lines": lines, "impl": res} if ncuts else None)
         terms = [f"({coq_list(coq_str(l) for l in lines)}, {coq_list(coq_list(coq_piece(p) for p in ps) for ps in pss)},"
-                 f" {region}, {coq_impl(res)})" for lines, pss, region, res in cases]
-        out = chk.coq_judge(IMPORTS, "list str * list (list piece) * nat * (list str + nat)", "judge_layout", terms)
-        region_hits = {1: 0, 2: 0, 3: 0}
+                 f" {coq_impl(res)})" for lines, pss, res in cases]
+        out = chk.coq_judge(IMPORTS, "list str * list (list piece) * (list str + nat)", "judge_layout", terms)
         if out is not None:
             chk.traces += len(cases)
             for idx, code in sorted(out.items()):
-                lines, pss, region, res = cases[idx]
-                if code & 1:
-                    chk.violation("failing-input" if (code & 2 and not region) else "broken-correspondence",
-                                  {"what": "FortranReader vs model on a generated layout", "lines": lines,
-                                   "impl": res, "code": code, "region": region}, bool(code & 2) and not region)
-                elif code & 2:
+                lines, pss, res = cases[idx]
+                if code & 2:
                     chk.disagreements += 1
-                    if region and chk.known(FINDING_KEYS[region], True):
-                        region_hits[region] += 1
-                    else:
-                        chk.violation("failing-input", {"what": "extracted statements differ from the lexical meaning",
-                                                        "lines": lines, "impl": res, "region": region}, True)
-        chk.extra["known_region_cases"] = region_hits
+                    chk.violation("failing-input", {"what": "extracted statements differ from the lexical meaning",
+                                                    "lines": lines, "impl": res, "code": code,
+                                                    "expected": [L.split_statements(ps) for ps in pss]}, True)
+                else:
+                    chk.violation("broken-correspondence",
+                                  {"what": "FortranReader vs model on a generated layout", "lines": lines,
+                                   "impl": res, "code": code}, False)
+        else:
+            # the judge could not be evaluated: the fixed regression inputs are still decided here
+            for lines, pss in REGRESSIONS:
+                res = run_reader(lines, workdir=work)
+                want = [st for ps in pss for st in L.split_statements(ps)]
+                got = [L.canon(o) for o in res[1] if not o.startswith("!")] if res[0] == "ok" else None
+                if got != want:
+                    chk.violation("failing-input", {"what": "extracted statements differ from the lexical meaning",
+                                                    "lines": lines, "impl": res, "expected": want}, True)
+        chk.extra["commentary_around_continued_literal_cases"] = shape_cases
         chk.extra["layout_cases"] = len(cases)
         # ---- B. malformed / doc-marker stream: model = impl only
         mcases = []
@@ -146,11 +168,6 @@ def run(chk):
                 marks, lines, res = mcases[idx]
                 chk.violation("broken-correspondence", {"what": "FortranReader vs model (malformed/doc stream)",
                                                         "marks": marks, "lines": lines, "impl": res}, False)
-        # ---- known findings still present?
-        r = run_reader(["x = 'abc&", "  &def' ! comment"], workdir=work)
-        chk.known("comment-after-continued-literal", r != ("ok", ["x = 'abcdef'"]))
-        r = run_reader(["x = 'abc&", "! note", "  &def'"], workdir=work)
-        chk.known("comment-line-inside-continued-literal", r != ("ok", ["x = 'abcdef'"]))
     finally:
         shutil.rmtree(work, ignore_errors=True)
 
